@@ -645,6 +645,7 @@ struct Space {
 	uint64_t total = 0;
 };
 static std::map<std::string, Space> g_spaces;
+static uint64_t g_space_seed = 0;
 static const int NBUFMODES = 4;
 static const int BUFMODES[NBUFMODES] = {0, 1, 2, 4};
 
@@ -656,6 +657,7 @@ static uint64_t space_size_for(const std::string &name, size_t ci) {
 	set_corpus(p, ci, dummy, false);
 	if (name == "trunc") return c.data.size();
 	if (name == "flip") return c.data.size() * 8;
+	if (name == "flip2") return c.data.size() * 2;  // quick tier: two of the eight bits of every byte, chosen by the seed
 	if (name == "alloc") return std::min<uint64_t>(probe_counts(p).nalloc + 1, 4000);  // bounded: an input that allocates without end must not square the sweep
 	if (name == "read") return probe_counts(p).nread;
 	if (name == "write") {
@@ -703,6 +705,7 @@ static Plan space_plan(const std::string &name, uint64_t index, const std::strin
 	FaultB f;
 	if (name == "trunc") { f.seam = "eof"; f.index = (long)off; }
 	else if (name == "flip") { f.seam = "flip"; f.index = (long)(off / 8); f.bit = (int)(off % 8); }
+	else if (name == "flip2") { f.seam = "flip"; f.index = (long)(off / 2); f.bit = (int)((g_space_seed + (off / 2) * 3 + (off % 2) * 4) % 8); }
 	else if (name == "alloc") { f.seam = "alloc"; f.index = (long)off; }
 	else if (name == "read") { f.seam = "read"; f.index = (long)off; f.err = EIO; }
 	else if (name == "write") {
@@ -1051,6 +1054,7 @@ int main(int argc, char **argv) {
 
 	std::string prop = opt["prop"];
 	uint64_t seed = strtoull(opt["seed"].c_str(), nullptr, 0);
+	g_space_seed = seed;
 	uint64_t start = strtoull(opt["start"].c_str(), nullptr, 0), stride = opt.count("stride") ? strtoull(opt["stride"].c_str(), nullptr, 0) : 1;
 	uint64_t count = strtoull(opt["count"].c_str(), nullptr, 0);
 	std::string spc = opt.count("space") ? opt["space"] : "";
